@@ -36,6 +36,9 @@ pub enum WOp {
     LateReceipt(u8, u8),
     RepeatPending(u8, u8),
     RepeatInvalid(u8, u8),
+    /// an acknowledgement that reports more free slots than the client knows of (the tower handed slots back, or two
+    /// acknowledgements are processed out of order)
+    ReceiptMoreSlots(u8, u8),
 }
 
 fn tower_id(t: u8) -> TowerId {
@@ -192,6 +195,7 @@ impl WWorld {
                         let invalid = rt_.invalid.contains(&l);
                         if !has_receipt && !pending && !invalid && rt_.proof.is_none() {
                             v.push(WOp::Receipt(t, l));
+                            v.push(WOp::ReceiptMoreSlots(t, l));
                             v.push(WOp::Pending(t, l));
                             v.push(WOp::Invalid(t, l));
                             v.push(WOp::Misbehaving(t, l));
@@ -263,6 +267,12 @@ impl WWorld {
             WOp::Receipt(t, l) => {
                 let e = self.reference.towers.get_mut(t).unwrap();
                 e.slots -= 1;
+                c.add_appointment_receipt(tower_id(*t), locator(*l), e.slots, &receipt(*t, *l));
+                e.receipts.insert(*l, format!("towersig-{t}-{l}"));
+            }
+            WOp::ReceiptMoreSlots(t, l) => {
+                let e = self.reference.towers.get_mut(t).unwrap();
+                e.slots += 1;
                 c.add_appointment_receipt(tower_id(*t), locator(*l), e.slots, &receipt(*t, *l));
                 e.receipts.insert(*l, format!("towersig-{t}-{l}"));
             }
@@ -375,6 +385,12 @@ impl WWorld {
                     let einv: BTreeSet<Vec<u8>> = r.invalid.iter().map(|l| appointment(*l).to_vec()).collect();
                     if rec != exp || pend != epend || inv != einv || info.available_slots != r.slots || info.subscription_expiry != r.expiry || info.net_addr != r.net_addr {
                         v.push((format!("record:differs-from-model:after-{kind}"), format!("tower {t}: gettowerinfo {:?} vs model {r:?}", serde_json::to_value(&info).unwrap())));
+                    }
+                    // the proof is the receipt this very tower handed out (other towers may hold receipts for the same commitment)
+                    if let (Some(p), Some(l)) = (info.misbehaving_proof.as_ref(), r.proof) {
+                        if p.appointment_receipt.signature() != receipt(*t, l).signature() || p.recovered_id != tower_id(9) {
+                            v.push((format!("record:proof-is-not-the-receipt-of-this-tower:after-{kind}"), format!("tower {t}: proof receipt {:?} recovered id {}", p.appointment_receipt.signature(), p.recovered_id)));
+                        }
                     }
                     if info.misbehaving_proof.as_ref().map(|p| p.locator) != r.proof.map(locator) || info.status != implied {
                         v.push((format!("record:proof-or-status:after-{kind}"), format!("tower {t}: proof {:?} status {} vs model proof {:?} implied {implied}", info.misbehaving_proof.as_ref().map(|p| p.locator), info.status, r.proof)));
